@@ -16,7 +16,7 @@ MOD = SS.MOD
 CLASSES["Subscription"].fields.update({"_assignment": Opt(Ref("Assignment")), "_topics": Set(STR)})
 
 
-@contract(MOD + ":Subscription._assign", ["C05"])
+@contract(MOD + ":Subscription._assign", ["C05", "C04", "C13"])
 def _(c):
     c.self_("Subscription")
     c.param("topic_partitions", Set(TP))
